@@ -27,6 +27,43 @@ CHECKS = {
         design="2/C13"),
 }
 
+CHECKS["C08"] = dict(
+    level="other",
+    text="The ten real kernel classes are executed on exact-real proxies "
+         "(rij, h, xij and pi symbolic) for every dimension they accept; on "
+         "every path (= polynomial piece) z3 decides support, sign, "
+         "dwdq = h dW/dr (formal derivative of the path's own W term), "
+         "gradient, gradient_h = dW/dh, continuity across piece boundaries "
+         "and the normalisation integral (sympy antiderivative verified by "
+         "z3). Bounded by exact arithmetic and a 1e-10 relative tolerance "
+         "for the module's rounded float literals; not a proof.",
+    note="floats as reals; exp uninterpreted with exp>0 and the chain rule; "
+         "formal differentiator (vf/zdiff.py) trusted; Gaussian-family "
+         "normalisation integral and the compiled twins are outside",
+    technique="symbolic execution of the python source on z3 Real proxies, "
+              "per-piece SMT (QF_NRA) queries, certificate checking, replay "
+              "on 60-digit mpmath numbers",
+    design="2/C08")
+CHECKS["C15"] = dict(
+    level="other",
+    text="Each of the 11 real solver functions is executed on exact-real "
+         "proxies on the forward and the mirrored problem inside one "
+         "symbolic path; z3 decides 'equal return codes, equal p*, negated "
+         "u*' per path pair, 'equal states return the common state', "
+         "'riemann_solve(k) == k-th solver' and 'exact reports failure for "
+         "vacuum data'. Symmetry is decided for non_diffusive, roe, llxf, "
+         "hllc_ball, hllsy and (partly) hlle; for the others the NRA "
+         "queries exceed the cap and are reported undecided.",
+    note="floats as reals; sqrt = fresh non-negative root (or a registered "
+         "root after the change of variables rho=a^2, gamma*p*rho=k^2, each "
+         "use justified by a solver query); pow uninterpreted with the "
+         "axioms pow(1,e)=1, pow(b>0,e)>0, pow(b,0)=1, pow(b,1)=b; Newton "
+         "iterations bounded by niter=2",
+    technique="symbolic execution of the python source on z3 Real proxies "
+              "(forward + mirrored run per path), SMT (QF_NRA/UF) per path, "
+              "replay of models",
+    design="2/C15")
+
 NOT_APPLICABLE = {
     "C05": "whole-application runs of compiled OpenMP code compared across "
            "configurations up to summation order: no unit a solver can "
